@@ -126,6 +126,14 @@ Comparable(t) ==
     [] t.k = "array"  -> Comparable(t.e)
     [] t.k = "struct" -> AllComparable(t.fs)
 
+\* types of size zero
+RECURSIVE ZeroSize(_)
+ZeroSize(t) == CASE t.k = "struct" -> \A i \in 1..Len(t.fs) : ZeroSize(t.fs[i].t)
+                 [] t.k = "array"  -> t.n = 0 \/ ZeroSize(t.e)
+                 [] t.k = "named"  -> ZeroSize(t.u)
+                 [] t.k = "inst"   -> ZeroSize(t.a)
+                 [] OTHER          -> FALSE
+
 \* "an embedded field must be a type name T or a pointer to a non-interface type name *T,
 \*  and T itself may not be a pointer type"
 EmbeddableV(t) == HasName(t) /\ KindOf(t) # "ptr"
